@@ -11,6 +11,7 @@ import (
 	"github.com/emmansun/gmsm/sm9"
 	hook "github.com/emmansun/gmsm/verifhook"
 	"golang.org/x/crypto/cryptobyte"
+	casn1 "golang.org/x/crypto/cryptobyte/asn1"
 
 	"verifh/mon"
 	refsm3 "verifh/ref/sm3"
@@ -106,6 +107,70 @@ type sm9KeySet struct {
 	uidA, uidB []byte
 	userA      *sm9.EncryptPrivateKey
 	userB      *sm9.EncryptPrivateKey
+
+	// the same keys in objects of other provenance (decoded from their encodings, as a party that
+	// received them would hold them): the draw must not depend on how the key object came about
+	encPubs              []namedEncPub
+	signUsers            []namedSignUser
+	userAWire, userBWire *sm9.EncryptPrivateKey
+}
+
+type namedEncPub struct {
+	name string
+	pub  *sm9.EncryptMasterPublicKey
+}
+
+type namedSignUser struct {
+	name string
+	user *sm9.SignPrivateKey
+}
+
+// keyWithMaster is SEQUENCE { BIT STRING user key, BIT STRING master public key }, the encoding from
+// which the sm9 decoders deliver a user key that carries its (decoded) master public key.
+func keyWithMaster(user, master []byte) []byte {
+	var b cryptobyte.Builder
+	b.AddASN1(casn1.SEQUENCE, func(b *cryptobyte.Builder) {
+		b.AddASN1BitString(user)
+		b.AddASN1BitString(master)
+	})
+	return b.BytesOrPanic()
+}
+
+func (k *sm9KeySet) provenances() error {
+	pub := k.encM.PublicKey()
+	k.encPubs = []namedEncPub{{"master.PublicKey()", pub}, {"userKey.MasterPublic()", k.userA.MasterPublic()}}
+	raw, err := sm9.UnmarshalEncryptMasterPublicKeyRaw(pub.Bytes())
+	if err != nil {
+		return err
+	}
+	k.encPubs = append(k.encPubs, namedEncPub{"UnmarshalEncryptMasterPublicKeyRaw", raw})
+	for _, enc := range []struct {
+		name string
+		f    func() ([]byte, error)
+	}{{"UnmarshalEncryptMasterPublicKeyASN1(MarshalASN1)", pub.MarshalASN1}, {"UnmarshalEncryptMasterPublicKeyASN1(MarshalCompressedASN1)", pub.MarshalCompressedASN1}} {
+		der, err := enc.f()
+		if err != nil {
+			return err
+		}
+		p, err := sm9.UnmarshalEncryptMasterPublicKeyASN1(der)
+		if err != nil {
+			return err
+		}
+		k.encPubs = append(k.encPubs, namedEncPub{enc.name, p})
+	}
+	k.signUsers = []namedSignUser{{"GenerateUserKey", k.signUser}}
+	su, err := sm9.UnmarshalSignPrivateKeyASN1(keyWithMaster(k.signUser.Bytes(), k.signM.PublicKey().Bytes()))
+	if err != nil {
+		return err
+	}
+	k.signUsers = append(k.signUsers, namedSignUser{"UnmarshalSignPrivateKeyASN1(key, master public key)", su})
+	if k.userAWire, err = sm9.UnmarshalEncryptPrivateKeyASN1(keyWithMaster(k.userA.Bytes(), pub.Bytes())); err != nil {
+		return err
+	}
+	if k.userBWire, err = sm9.UnmarshalEncryptPrivateKeyASN1(keyWithMaster(k.userB.Bytes(), pub.Bytes())); err != nil {
+		return err
+	}
+	return nil
 }
 
 func newSM9KeySetFrom(ks, ke *big.Int, signUID []byte, signHID byte, uidA, uidB []byte, encHID byte) (*sm9KeySet, error) {
@@ -136,6 +201,9 @@ func newSM9KeySetFrom(ks, ke *big.Int, signUID []byte, signHID byte, uidA, uidB 
 		return nil, err
 	}
 	if k.userB, err = k.encM.GenerateUserKey(uidB, encHID); err != nil {
+		return nil, err
+	}
+	if err = k.provenances(); err != nil {
 		return nil, err
 	}
 	return k, nil
@@ -299,7 +367,10 @@ func prepSM9GenEnc(x *env, r *mon.Rand, variant string) *call {
 func prepSM9Sign(x *env, r *mon.Rand, variant string) *call {
 	ks := x.sm9k[r.Intn(len(x.sm9k))]
 	msg := r.Bytes(r.Range(1, 64))
-	return sm9SignCall(ks, msg, variant)
+	u := ks.signUsers[r.Intn(len(ks.signUsers))]
+	c := sm9SignCallOn(ks, u.user, msg, variant)
+	c.inputs += " key-object=" + u.name
+	return c
 }
 
 func sm9SignCall(ks *sm9KeySet, msg []byte, variant string) *call {
@@ -357,7 +428,10 @@ func sm9SignCallOn(ks *sm9KeySet, user *sm9.SignPrivateKey, msg []byte, variant 
 
 func prepSM9Wrap(x *env, r *mon.Rand, variant string) *call {
 	ks := x.sm9k[r.Intn(len(x.sm9k))]
-	return prepSM9WrapOn(ks, ks.encM.PublicKey(), r, variant)
+	np := ks.encPubs[r.Intn(len(ks.encPubs))]
+	c := prepSM9WrapOn(ks, np.pub, r, variant)
+	c.inputs += " master-public-key-object=" + np.name
+	return c
 }
 
 func prepSM9WrapOn(ks *sm9KeySet, pub *sm9.EncryptMasterPublicKey, r *mon.Rand, variant string) *call {
@@ -453,7 +527,10 @@ func sm9EncOpts(variant string) (opts sm9.EncrypterOpts, extra int) {
 
 func prepSM9Encrypt(x *env, r *mon.Rand, variant string) *call {
 	ks := x.sm9k[r.Intn(len(x.sm9k))]
-	return prepSM9EncryptOn(ks, ks.encM.PublicKey(), r, variant)
+	np := ks.encPubs[r.Intn(len(ks.encPubs))]
+	c := prepSM9EncryptOn(ks, np.pub, r, variant)
+	c.inputs += " master-public-key-object=" + np.name
+	return c
 }
 
 func prepSM9EncryptOn(ks *sm9KeySet, pub *sm9.EncryptMasterPublicKey, r *mon.Rand, variant string) *call {
@@ -517,6 +594,7 @@ type sm9Kx struct {
 	uidOwn, uidPeer []byte
 	klen            int
 	sig             bool
+	wire            bool // the user key object was decoded from its encoding (with the master public key)
 }
 
 func newSM9Kx(ks *sm9KeySet, ownIsA bool, klen int, sig bool) sm9Kx {
@@ -528,7 +606,7 @@ func newSM9Kx(ks *sm9KeySet, ownIsA bool, klen int, sig bool) sm9Kx {
 }
 
 func (p sm9Kx) String() string {
-	return fmt.Sprintf("ke=%064x uidOwn=%x uidPeer=%x hid=%d klen=%d confirm=%v", p.ks.ke, p.uidOwn, p.uidPeer, p.ks.encHID, p.klen, p.sig)
+	return fmt.Sprintf("ke=%064x uidOwn=%x uidPeer=%x hid=%d klen=%d confirm=%v user-key-decoded=%v", p.ks.ke, p.uidOwn, p.uidPeer, p.ks.encHID, p.klen, p.sig, p.wire)
 }
 
 // sm9KxObj is one key-exchange object a caller keeps.
@@ -540,10 +618,8 @@ type sm9KxObj struct {
 // newSM9KxObj builds the object on user (nil: the shared user key object of the key set).
 func newSM9KxObj(p sm9Kx, user *sm9.EncryptPrivateKey) *sm9KxObj {
 	if user == nil {
-		user = p.ks.userB
-		if p.ownIsA {
-			user = p.ks.userA
-		}
+		user = map[[2]bool]*sm9.EncryptPrivateKey{{false, false}: p.ks.userB, {true, false}: p.ks.userA,
+			{false, true}: p.ks.userBWire, {true, true}: p.ks.userAWire}[[2]bool{p.ownIsA, p.wire}]
 	}
 	return &sm9KxObj{p: p, ke: user.NewKeyExchange(p.uidOwn, p.uidPeer, p.klen, p.sig)}
 }
@@ -562,7 +638,9 @@ func (ks *sm9KeySet) kexRef(idA, idB []byte, rA, rB *big.Int, klen int) (ra, rb 
 
 func prepSM9KxInit(x *env, r *mon.Rand, variant string) *call {
 	ks := x.sm9k[r.Intn(len(x.sm9k))]
-	return sm9KxInitCall(nil, newSM9Kx(ks, true, r.Range(1, 48), true), randScalar(r, sm9N))
+	p := newSM9Kx(ks, true, r.Range(1, 48), true)
+	p.wire = r.Bool()
+	return sm9KxInitCall(nil, p, randScalar(r, sm9N))
 }
 
 // sm9KxInitCall is InitKeyExchange on the kept object obj (nil: a new object per run); rPeer is the
@@ -619,7 +697,9 @@ func sm9KxInitCall(obj *sm9KxObj, p sm9Kx, rPeer *big.Int) *call {
 
 func prepSM9KxRespond(x *env, r *mon.Rand, variant string) *call {
 	ks := x.sm9k[r.Intn(len(x.sm9k))]
-	return sm9KxRespondCall(nil, newSM9Kx(ks, false, r.Range(1, 48), variant == "RespondKeyExchange(sig)"), randScalar(r, sm9N))
+	p := newSM9Kx(ks, false, r.Range(1, 48), variant == "RespondKeyExchange(sig)")
+	p.wire = r.Bool()
+	return sm9KxRespondCall(nil, p, randScalar(r, sm9N))
 }
 
 // sm9KxRespondCall is RespondKeyExchange(RA = [rPeer]Q_own) on the kept object obj (nil: a new one per run).
